@@ -302,6 +302,27 @@ impl Monitor for C12 {
 
     fn run_case(&mut self, k: u64, ctx: &mut Ctx) {
         let mut r = Rng::derive(self.seed, 0x1201, k, 0);
+        // a valid zstd frame around a tiny garbage container: the wrapper may fail (negative status, also
+        // for an internal panic mapped to -2) but must keep its promises, and nothing may leak into the
+        // calls that follow in this process (the sweep below would then fail with ample buffers)
+        for _ in 0..4 {
+            let n = r.usize_below(5);
+            let mut c = vec![1u8];
+            for _ in 0..n {
+                c.push(*r.pick(&[0u8, 1, 2, 3, 0x7f, 0x80, 0xff]));
+            }
+            if r.chance(1, 8) {
+                c[0] = r.byte();
+            }
+            if let Ok(frame) = zstd::bulk::compress(&c, 3) {
+                let place = if r.chance(1, 2) { Place::GuardAfter } else { Place::GuardBefore };
+                let d = call(false, &frame, 64, place);
+                ctx.count("evaluations");
+                ctx.count("garbage_container_calls");
+                ctx.count(&format!("garbage_container:status{}", d.status.clamp(-3, 1)));
+                Self::check_common(&d, 64, "decompress (frame around a garbage container)", &format!("container {:02x?}", c), &c, ctx);
+            }
+        }
         let (bytes, label, dense) = match k % 10 {
             0 => {
                 let g = wrap::edge_case(k / 10, &mut r);
